@@ -149,7 +149,7 @@ Proof.
   unfold write_doc in Hw. rewrite Hk, Hrefs in Hw. cbn [rbind] in Hw.
   destruct (map (fun i : Z => nth (Z.to_nat i) (w_newl (p_namespaces p) k) []) (w_in_use p k refs)) as [|u0 [|u1 rest]] eqn:En; try discriminate.
   match type of Hw with (if ?c then _ else _) = _ => destruct c; [discriminate|] end.
-  injection Hw as <-. cbn [d_nodes]. rewrite map_map. apply map_ext_in. intros x Hx. cbn [ne_cls ne_attrs hd_error]. f_equal. f_equal. f_equal.
+  injection Hw as <-. cbn [d_nodes]. rewrite map_map. apply map_ext_in. intros x Hx. unfold w_node_elem. cbn [ne_cls ne_attrs hd_error]. f_equal. f_equal. f_equal.
   destruct Hreg as [Hnd [Hkk [Hi [H0 Hne]]]].
   pose proof (compact_one (w_in_use p k refs) (zsort_sorted _) (in_use_nonneg p k refs Hi) H0 (in_use_has_one p k refs Hnd Hkk Hi Hne)) as Hc.
   unfold w_written in Hx. apply filter_In in Hx as [Hxin Hx1].
